@@ -81,14 +81,21 @@ class World:
 def apply_op(w: World, op):
     """-> None; raises Violation on an unexpected compile/runtime failure"""
     k = op[0]
-    if k == "def":
-        _, ns, nm, val, flag = op
+    if k in ("def", "fndef"):
+        _, ns, nm, val, flag = op[:5]
         nm = real_name(nm, w.nsB)
         meta = {"dynamic": "^:dynamic ", "redef": "^:redef ", "private": "^:private ", None: ""}[flag]
         if flag == "dynamic" and not (nm.startswith("*") and nm.endswith("*")):
             meta = "^:dynamic "
         prev = w.vars.get((ns, nm))
-        w.ses(ns).eval(f"(def {meta}{nm} {val})")
+        if k == "def":
+            w.ses(ns).eval(f"(def {meta}{nm} {val})")
+        elif op[5] == 1:
+            # the def runs inside a function that is called
+            w.ses(ns).eval(f"((fn [] (def {meta}{nm} {val})))")
+        else:
+            # ... or inside a function nested in a function that def'ed the same name before
+            w.ses(ns).eval(f"((fn [] (def {meta}{nm} {val + 100}) ((fn [] (def {meta}{nm} {val})))))")
         w.vars[(ns, nm)] = Var(val, flag == "dynamic", flag == "redef", flag == "private", next(w.clock))
         if prev is not None and prev.private and flag != "private":
             w.vars[(ns, nm)].private = False
@@ -119,7 +126,8 @@ def apply_op(w: World, op):
             return
         spelling = nm if ns == "A" else f"{w.nsB}/{nm}"
         f = w.sA.eval(f"(fn [] {spelling})")
-        w.readers.append((f, ns, nm, spelling))
+        # a reader compiled while the Var is neither ^:dynamic nor ^:redef may be linked directly
+        w.readers.append((f, ns, nm, spelling, not (v.dynamic or v.redef)))
     elif k == "binding":
         pass   # handled in reads (scoped)
     else:
@@ -185,10 +193,12 @@ def read_all(w: World, step, table):
                 raise Violation(f"wrong-value-read:{kind}", None,
                                 f"step {step}: {src} (config {w.cfg}) gave {got}; the Var {full}/{nm} was last given {v.value!r}; "
                                 f"vars {[(k, x.value) for k, x in w.vars.items()]}", finding=fid)
-    for f, ns, nm, spelling in w.readers:
+    for f, ns, nm, spelling, direct in w.readers:
         v = w.vars.get((ns, nm))
         if v is None or not visible(w, v):
             continue
+        if direct and v.tainted and not w.cfg["use_var_indirection"]:
+            continue        # compiled before the Var became ^:redef / ^:dynamic: root changes other than def need not reach it
         try:
             got = ("ok", f())
         except Exception as e:  # noqa
@@ -219,10 +229,10 @@ def check_binding(w: World, op, step):
 
 def run_history(rec, ops, count=True):
     tables = []
-    only_defs = all(o[0] in ("def", "alias", "refer", "reader") for o in ops)
-    names = [real_name(o[2], "X") for o in ops if o[0] == "def"]
+    only_defs = all(o[0] in ("def", "fndef", "alias", "refer", "reader") for o in ops)
+    names = [real_name(o[2], "X") for o in ops if o[0] in ("def", "fndef")]
     collide = any(a != b and munge(a) == munge(b) for a, b in itertools.combinations(set(names), 2))
-    redefs = len(names) != len(set((o[1], o[2]) for o in ops if o[0] == "def"))
+    redefs = len(names) != len(set((o[1], o[2]) for o in ops if o[0] in ("def", "fndef")))
     cross = any(o[0] in ("alias", "refer") for o in ops) or any(o[0] == "def" and o[1] == "B" for o in ops)
     case = {"kind": "history", "ops": ops}
     if count:
@@ -263,6 +273,7 @@ def ops_strategy():
     op = st.one_of(
         st.tuples(st.just("def"), ns, name, val, st.sampled_from([None, None, None, "dynamic", "redef", "private"])),
         st.tuples(st.just("def"), ns, name, val, st.just(None)),
+        st.tuples(st.just("fndef"), ns, name, val, st.sampled_from([None, None, "redef", "dynamic"]), st.sampled_from([1, 2])),
         st.tuples(st.just("alias")), st.tuples(st.just("refer"), name),
         st.tuples(st.just("alter"), ns, name, val),
         st.tuples(st.just("reader"), ns, name),
@@ -277,10 +288,13 @@ def normalize(ops):
     kinds = {}
     out = []
     for o in ops:
-        if o[0] == "def":
+        if o[0] in ("def", "fndef"):
             key = (o[1], o[2])
             if key in kinds:
-                o = [o[0], o[1], o[2], o[3], kinds[key]]
+                if kinds[key] is None and o[4] in ("redef", "dynamic"):
+                    kinds[key] = o[4]      # a plain Var may later be re-def'ed ^:redef / ^:dynamic (never the reverse)
+                else:
+                    o = o[:4] + [kinds[key]] + o[5:]
             else:
                 kinds[key] = o[4]
         out.append(o)
@@ -307,6 +321,23 @@ def shard(i, n, tier, seed, findings):
             except Violation as v:
                 rec.violation(v.sig, v.case, v.detail, finding=v.finding, findings=findings)
     rec.exhaustive["name-pair-matrix"] = True
+
+    # systematic: a plain Var that is read by functions compiled earlier, then re-def'ed (plain / ^:redef / ^:dynamic;
+    # at top level, inside a called function, inside a function nested in a function that def'ed the name before)
+    k = 0
+    for nm in NAMES:
+        for ns in ("A", "B"):
+            for flag in (None, "redef", "dynamic"):
+                k += 1
+                if k % n != i:
+                    continue
+                ops = [["def", ns, nm, 1, None], ["alias"], ["reader", ns, nm], ["def", ns, nm, 2, flag], ["reader", ns, nm],
+                       ["fndef", ns, nm, 3, flag, 1], ["fndef", ns, nm, 4, flag, 2], ["def", ns, nm, 5, flag]]
+                try:
+                    run_history(rec, ops)
+                except Violation as v:
+                    rec.violation(v.sig, v.case, v.detail, finding=v.finding, findings=findings)
+    rec.exhaustive["redef-matrix"] = True
 
     hyp.drive(lambda ops: run_history(rec, normalize(ops)), ops_strategy(), rec=rec, findings=findings, seed=seed * 1000 + i,
               max_examples=25 if tier == "quick" else 700, to_case=lambda ops: {"kind": "history", "ops": normalize(ops)})
